@@ -360,6 +360,34 @@ func (w *world) freshName() string {
 	return fmt.Sprintf("n%d", w.serial)
 }
 
+// childName draws a name for a new direct child of n: usually unused, sometimes the name of
+// a logger elsewhere in the forest (a grandchild, an ancestor, n itself, a sibling) - as long as no
+// direct child of n has it, New must create a new direct child.
+func (w *world) childName(n *node) string {
+	if rapid.IntRange(0, 2).Draw(w.t, "reuseForeignName") == 0 {
+		var cands []string
+		for _, m := range w.nodes {
+			if m.name == "" || strings.Contains(m.name, "/") {
+				continue
+			}
+			direct := false
+			for _, c := range n.children {
+				if c.name == m.name {
+					direct = true
+				}
+			}
+			if !direct {
+				cands = append(cands, m.name)
+			}
+		}
+		if len(cands) > 0 {
+			w.labels["new-with-name-used-elsewhere"] = true
+			return rapid.SampledFrom(cands).Draw(w.t, "foreignName")
+		}
+	}
+	return w.freshName()
+}
+
 func genOwnAttrs(t *rapid.T) []vlib.ExpAttr {
 	n := rapid.IntRange(1, 3).Draw(t, "nattrs")
 	var out []vlib.ExpAttr
@@ -374,9 +402,25 @@ func genOwnAttrs(t *rapid.T) []vlib.ExpAttr {
 	return out
 }
 
+// slice values handed to several loggers (see setting.shared); rebuilt for every case
+var (
+	sharedExp  [2][]vlib.ExpAttr
+	sharedPool [2]slog.Attrs
+)
+
+func resetShared() {
+	sharedExp[0] = []vlib.ExpAttr{{Key: "sh", Val: vlib.Value{Kind: "string", V: "zero"}}}
+	sharedExp[1] = []vlib.ExpAttr{{Key: "sa", Val: vlib.Value{Kind: "int", V: 7}}, {Key: "sb", Val: vlib.Value{Kind: "string", V: "one"}}}
+	for i := range sharedPool {
+		a := make(slog.Attrs, 0, 8) // spare capacity: appending through one logger must not show in another
+		sharedPool[i] = append(a, vlib.AttrsOf(sharedExp[i])...)
+	}
+}
+
 var layouts = []string{time.RFC3339, time.RFC3339Nano, "2006-01-02 15:04:05.000 -0700", time.RFC1123Z}
 
 type setting struct {
+	shared slog.Attrs // attrs1 only: the very slice value also given to other loggers
 	kind   string
 	level  slog.Level
 	bools  []bool
@@ -419,6 +463,12 @@ func genSetting(t *rapid.T, allowSkip bool) setting {
 		s.layout = rapid.SliceOfN(rapid.SampledFrom(layouts), 0, 2).Draw(t, "layouts")
 	case "attrs", "attrs1", "kv":
 		s.attrs = genOwnAttrs(t)
+		if s.kind == "attrs1" && rapid.Bool().Draw(t, "sharedSlice") {
+			// one of a few slice values that the whole case shares; built with spare capacity
+			i := rapid.IntRange(0, 1).Draw(t, "whichShared")
+			s.attrs = sharedExp[i]
+			s.shared = sharedPool[i]
+		}
 	case "skip":
 		s.skip = rapid.IntRange(0, 3).Draw(t, "skip")
 	case "ctxkeys":
@@ -470,6 +520,9 @@ func (w *world) applyModel(n *node, s setting) {
 		}
 	case "attrs", "attrs1", "kv":
 		n.attrs = append(n.attrs, s.attrs...)
+		if s.shared != nil {
+			w.labels["shared-attrs-slice"] = true
+		}
 	case "skip":
 		n.skip = s.skip
 	case "ctxkeys":
@@ -504,6 +557,9 @@ func (w *world) doSet(n *node, s setting) *slog.Entry {
 	case "attrs":
 		return lg.SetAttrs(vlib.AttrsOf(s.attrs)...)
 	case "attrs1":
+		if s.shared != nil {
+			return lg.SetAttrs1(s.shared)
+		}
 		return lg.SetAttrs1(vlib.AttrsOf(s.attrs))
 	case "kv":
 		var args []any
@@ -540,6 +596,9 @@ func (w *world) doWith(n *node, s setting, wid int) *slog.Entry {
 	case "attrs":
 		return lg.WithAttrs(vlib.AttrsOf(s.attrs)...)
 	case "attrs1":
+		if s.shared != nil {
+			return lg.WithAttrs1(s.shared)
+		}
 		return lg.WithAttrs1(vlib.AttrsOf(s.attrs))
 	case "kv":
 		var args []any
@@ -573,6 +632,9 @@ func toOpt(s setting) any {
 	case "attrs":
 		return slog.WithAttrs(vlib.AttrsOf(s.attrs)...)
 	case "attrs1":
+		if s.shared != nil {
+			return slog.WithAttrs1(s.shared)
+		}
 		return slog.WithAttrs1(vlib.AttrsOf(s.attrs))
 	case "kv":
 		var args []any
@@ -638,7 +700,7 @@ func (w *world) step() {
 			name := ""
 			var opts []setting
 			if mode == "fresh" {
-				name = w.freshName()
+				name = w.childName(n)
 				args = append(args, name)
 				for i := rapid.IntRange(0, 2).Draw(t, "nopts"); i > 0; i-- {
 					s := genSetting(t, false)
@@ -734,6 +796,7 @@ func (w *world) step() {
 func TestHierarchy(t *testing.T) {
 	rapid.Check(t, func(t *rapid.T) {
 		defer vlib.Canon()()
+		resetShared()
 		w := &world{t: t, log: vlib.NewEventLog(), labels: map[string]bool{}}
 		// node 0: the default logger's subtree. The process-wide default logger keeps the children
 		// of earlier cases (no public reset), so every case installs a fresh default logger.
@@ -769,7 +832,7 @@ func TestHierarchy(t *testing.T) {
 		w.checkGetters()
 
 		key := ""
-		if len(w.nodes) >= 3 && ((w.labels["with"] && w.labels["set"]) || w.labels["new-existing-name"]) {
+		if len(w.nodes) >= 3 && ((w.labels["with"] && w.labels["set"]) || w.labels["new-existing-name"] || w.labels["new-with-name-used-elsewhere"]) {
 			key = strings.Join(w.hist, ";")
 		}
 		var ls []string
